@@ -1,6 +1,6 @@
-SPECIFICATION FairSpec
+SPECIFICATION Spec
 CONSTANTS
-  Conns = {1}
+  Conns = {1, 2}
   Ids = {1, 2}
   Mode = "tcp"
   WithHist = FALSE
@@ -8,6 +8,5 @@ CONSTANTS
   GenLen = 0
   DEV = "none"
 INVARIANTS TypeOK OneReply NoReadAfterGiveUp DeadlineClass NilCloses CtxNotEarly DoneIsClean
-PROPERTIES ReplyLive TimeoutCloses EofCloses ClosedCancels ListenerEnds ReadLive
 VIEW ViewNoHist
 CHECK_DEADLOCK FALSE
